@@ -350,7 +350,12 @@ macro_rules! impl_dispatch {
                     Disp::ConstInherent | Disp::ConstDyn | Disp::ConstStatic => write_const_id::<$E, DW>(how, id.ok_or("no identifier")?, &mut w, v)?,
                     Disp::Func => {
                         let f = FuncCodeWriter::<$E, DW>::new(codes.ok_or("no enum variant")?).map_err(|e| format!("unsupported: {}", e))?;
-                        f.write(&mut w, v).map_err(es)?
+                        // every other value goes through the accessor pair get_func / new_with_func
+                        if v % 2 == 0 {
+                            f.write(&mut w, v).map_err(es)?
+                        } else {
+                            FuncCodeWriter::<$E, DW>::new_with_func(f.get_func()).write(&mut w, v).map_err(es)?
+                        }
                     }
                     Disp::Factory => return Err("unsupported: factory is read-only".into()),
                     Disp::StatsDyn => {
@@ -396,7 +401,11 @@ macro_rules! impl_dispatch {
                     Disp::ConstInherent | Disp::ConstDyn | Disp::ConstStatic => read_const_id::<$E, DR>(how, id.ok_or("no identifier")?, &mut r)?,
                     Disp::Func => {
                         let f = FuncCodeReader::<$E, DR>::new(codes.ok_or("no enum variant")?).map_err(|e| format!("unsupported: {}", e))?;
-                        f.read(&mut r).map_err(es)?
+                        if pre % 2 == 0 {
+                            f.read(&mut r).map_err(es)?
+                        } else {
+                            FuncCodeReader::<$E, DR>::new_with_func(f.get_func()).read(&mut r).map_err(es)?
+                        }
                     }
                     Disp::Factory => {
                         let ff = FactoryFuncCodeReader::<$E, MemFactory<$E>>::new(codes.ok_or("no enum variant")?).map_err(|e| format!("unsupported: {}", e))?;
@@ -460,7 +469,7 @@ pub fn d_len(how: Disp, code: Code, id: Option<usize>, v: u64) -> R<usize> {
         Disp::ConstInherent | Disp::ConstDyn | Disp::ConstStatic => len_const_id(id.ok_or("no identifier")?, v),
         Disp::Func => {
             let f = FuncCodeLen::new(codes.ok_or("no enum variant")?).map_err(|e| format!("unsupported: {}", e))?;
-            Ok(f.len(v))
+            Ok(if v % 2 == 0 { f.len(v) } else { FuncCodeLen::new_with_func(f.get_func()).len(v) })
         }
         _ => Err("unsupported: no length object".into()),
     }
